@@ -71,27 +71,12 @@ def runQueries (o : Op) (file : Bytes) : String :=
       | .ok db => "|".intercalate (qs.map fun q => showVerdict (db.checkHostKey now q.addr q.remote q.key))
   | _, _, _ => "bad-op"
 
-/-- plain-key queries answered under the property's reading (marker filter, case-insensitive hosts) -/
-def runQueriesP (o : Op) (file : Bytes) : String :=
-  match (o.get? "kt").bind parseKT with
-  | some kt =>
-    match (splitList (o.str "q") ",").mapM (parseQuery []) with
-    | none => "bad-op"
-    | some qs =>
-      match readDB kt file with
-      | .error n => s!"parse-err:{n}"
-      | .ok db => "|".intercalate (qs.map fun q =>
-          match q.key with
-          | .plain id => showVerdict (db.checkP q.addr q.remote id)
-          | .cert _ => "bad-op")
-  | none => "bad-op"
-
 def handle (line : String) : String :=
   let o := parseOp line
   match o.cmd with
-  | "khp" =>
+  | "khp" =>   -- former known-finding classes (marker / case), now ordinary cases of the fixed code
     match o.hex? "file" with
-    | some f => runQueriesP o f
+    | some f => runQueries o f
     | none => "bad-op"
   | "skf" =>   -- lines matching (host, port): what KeyError.Want lists for a key that is not in the file
     match o.hex? "file", (o.get? "kt").bind parseKT, o.hex? "host", o.get? "port" with
